@@ -9,7 +9,7 @@
                                      guarantees about its own arrays (hypotheses, not verified)
    All theorems quantify over every number type with exact arithmetic ((a + b) - b = a). *)
 From Coq Require Import ZArith List Sorting.Sorted.
-From PAFC05 Require Import Model Proofs1 Proofs2 Proofs3 Proofs4.
+From PAFC05 Require Import Model Proofs1 Proofs2 Proofs3 Proofs4 Proofs5 Proofs6.
 Import ListNotations.
 
 (* ---------- Sample.from_lists: the i-th sample is the i-th entry of every list ---------- *)
@@ -29,11 +29,6 @@ Theorem C05_from_lists_complete :
     length lls = length rows -> length lps = length rows -> length ws = length rows ->
     map (s_vec V) (from_lists V paths rows lls lps ws) = rows.
 Proof. exact from_lists_rows_all. Qed.
-
-(* log_posterior is log_likelihood + log_prior (Sample.log_posterior) *)
-Theorem C05_posterior :
-  forall (V : Type) (add : V -> V -> V) (s : sample V), s_post V add s = add (s_ll s) (s_lp s).
-Proof. exact post_def. Qed.
 
 (* ---------- nested samplers ---------- *)
 Theorem C05_dynesty_pairing :
@@ -97,7 +92,8 @@ Theorem C05_bfgs_history_pairing :
       Forall (faithful V prior L nonneg) out /\ map (s_vec V) out = hist.
 Proof. exact bfgs_vis_pairing. Qed.
 
-(* ---------- emcee: the full statement, for the repaired and for the pinned log-prob call ---------- *)
+(* ---------- emcee: the full statement, for the repaired call (in /repo since 97df212) and, as the record of
+   the defect, for the call that was pinned before ---------- *)
 (* emcee_pairing_statement aligned := for every exact arithmetic, chain, log-prob array satisfying
    the sampler contract, discard and thin: every sample of emcee_convert aligned ... is faithful *)
 Theorem C05_emcee_pairing_fixed : emcee_pairing_statement true.
@@ -135,16 +131,17 @@ Proof. exact zeus_fixed_holds. Qed.
 Theorem C05_zeus_pairing_refuted : ~ zeus_pairing_statement false.
 Proof. exact zeus_pinned_refuted. Qed.
 
-(* guard excluding the defect: nothing discarded, no thinning *)
+(* pinned call, EVERY discard / thin: each thinned row is returned once, in order, with its own prior
+   and weight 1 (only the log-likelihood is mispaired) *)
 Theorem C05_zeus_pairing_partial :
-  forall (V : Type) (add sub : V -> V -> V) (one : V) (prior L : list V -> V) (nonneg : V -> Prop),
-    (forall a b : V, sub (add a b) b = a) -> nonneg one ->
-    forall (paths : list path) (chain : list (list (list V))) (logp : list (list V)) (out : list (sample V)),
-      Forall (rows_ok V paths) chain ->
-      mcmc_contract add prior L chain logp ->
-      zeus_convert V sub one prior false paths chain logp 0 1 = Some out ->
-      Forall (faithful V prior L nonneg) out /\ map (s_vec V) out = concat chain.
-Proof. exact zeus_pinned_no_burn_in. Qed.
+  forall (V : Type) (sub : V -> V -> V) (one : V) (prior : list V -> V) (paths : list path)
+         (chain : list (list (list V))) (logp : list (list V)) (discard thin : nat) (out : list (sample V)),
+    Forall (rows_ok V paths) chain ->
+    Forall2 (fun (step : list (list V)) (lp : list V) => length step = length lp) chain logp ->
+    zeus_convert V sub one prior false paths chain logp discard thin = Some out ->
+    Forall (half_faithful V prior one) out /\
+    map (s_vec V) out = concat (every_from discard thin chain).
+Proof. exact zeus_pinned_rows. Qed.
 
 (* ---------- pyswarms ---------- *)
 Theorem C05_pyswarms_pairing_refuted : ~ pyswarms_pairing_statement.
@@ -160,6 +157,36 @@ Theorem C05_pyswarms_pairing_partial :
       pyswarms_convert V sub neghalf one prior paths (map (fun x => [x]) xs) cost = Some out ->
       Forall (faithful V prior L nonneg) out /\ map (s_vec V) out = xs.
 Proof. exact pyswarms_single_particle. Qed.
+
+(* pinned code, EVERY swarm: one sample per iteration, its parameters are the first particle of that
+   iteration, weight 1 (log-likelihood and log-prior belong to other particles) *)
+Theorem C05_pyswarms_rows_partial :
+  forall (V : Type) (sub : V -> V -> V) (neghalf : V -> V) (one : V) (prior : list V -> V) (paths : list path)
+         (pos : list (list (list V))) (cost : list V) (out : list (sample V)) (firsts : list (list V)),
+    Forall (rows_ok V paths) pos ->
+    length cost = length pos ->
+    heads V pos = Some firsts ->
+    pyswarms_convert V sub neghalf one prior paths pos cost = Some out ->
+    map (s_vec V) out = firsts /\ Forall (fun s : sample V => s_w s = one) out.
+Proof. exact pyswarms_pinned_rows. Qed.
+
+(* ---------- initializer: likelihoods stay with the point they were computed for ---------- *)
+(* samples_from_model (rounds of min(remaining, n_cores) draws, pool results zipped with the drawn
+   vectors by position, rejected draws dropped) returns total_points triples, each of them one of the
+   draws together with that draw's own figure of merit ... *)
+Theorem C05_initializer_pairing :
+  forall (V : Type) (fuel ncores total : nat) (draws : list (draw V)) (out : list (kept V)) (rest : list (draw V)),
+    init_run V fuel ncores total draws [] = Some (out, rest) ->
+    length out = total /\
+    (forall (u p : list V) (f : V), In (u, p, f) out -> In (u, p, Some f) draws).
+Proof. exact init_run_pairs. Qed.
+
+(* ... namely exactly the successful draws of the consumed prefix, in generation order *)
+Theorem C05_initializer_is_filter :
+  forall (V : Type) (fuel ncores total : nat) (draws : list (draw V)) (out : list (kept V)) (rest : list (draw V)),
+    init_run V fuel ncores total draws [] = Some (out, rest) ->
+    exists n : nat, rest = skipn n draws /\ out = kept_of V (firstn n draws).
+Proof. exact init_run_is_filter. Qed.
 
 (* ---------- best fit ---------- *)
 Theorem C05_best_is_a_sample :
@@ -227,3 +254,4 @@ Print Assumptions C05_emcee_pairing_refuted.
 Print Assumptions C05_pyswarms_pairing_refuted.
 Print Assumptions C05_best_is_first_maximum.
 Print Assumptions C05_best_vector.
+Print Assumptions C05_initializer_pairing.
